@@ -102,6 +102,35 @@ func VerifC12Verify(kind int, content, other string) int {
 	return 0
 }
 
+// VerifC12WrongAlg: an entry (kind 0..3) whose recorded hash is the true digest of the very content, but under
+// another algorithm than the entry's own, is never accepted.
+func VerifC12WrongAlg(kind int, content string, walg int) int {
+	alg0 := []string{"sha256", "sha512", "sha256", "sha512"}[kind]
+	w := []string{"md5", "sha1", "sha256", "sha512"}[walg]
+	if w == alg0 {
+		return 0
+	}
+	recorded := verifDigestHex(w, content)
+	e, alg, ok := verifEntry(kind, recorded, content)
+	if !ok {
+		return 1
+	}
+	if e.Algorithm != alg {
+		return 2
+	}
+	v, err := e.Verifier()
+	if err != nil {
+		return 0 // refused up front
+	}
+	if n, err := v.Write([]byte(content)); err != nil || n != len(content) {
+		return 5
+	}
+	if v.Close() == nil {
+		return 6 // accepted on the strength of a digest of another algorithm
+	}
+	return 0
+}
+
 // VerifC12BadHash: an odd-length or non-hex recorded hash makes Verifier fail.
 func VerifC12BadHash(kind int, recorded string) int {
 	e, _, ok := verifEntry(kind, recorded, "")
@@ -152,4 +181,5 @@ func init() {
 	verifFuncs["VerifC12Truncated"] = VerifC12Truncated
 	verifFuncs["VerifC12Verify"] = VerifC12Verify
 	verifFuncs["VerifC12BadHash"] = VerifC12BadHash
+	verifFuncs["VerifC12WrongAlg"] = VerifC12WrongAlg
 }
